@@ -27,7 +27,12 @@ pub struct Gadget {
     /// pass the composer's own constant witnesses `Composer::ZERO` / `ONE` for
     /// inputs whose value is 0 / 1 instead of allocating fresh witnesses
     pub const_handles: bool,
+    /// operations applied to the input witnesses BEFORE the gadget (a non-initial
+    /// composer state: the inputs have a history); run honestly, not explored
+    pub prelude: Option<PreludeFn>,
 }
+
+pub type PreludeFn = Arc<dyn Fn(&mut Composer, &[Witness]) -> Result<(), Error> + Send + Sync>;
 
 #[derive(Clone, Default, Debug)]
 pub struct Meta {
@@ -37,6 +42,14 @@ pub struct Meta {
 }
 
 impl Gadget {
+    pub fn with_prelude<P>(mut self, name: &str, p: P) -> Self
+    where
+        P: Fn(&mut Composer, &[Witness]) -> Result<(), Error> + Send + Sync + 'static,
+    {
+        self.prelude = Some(Arc::new(p));
+        self.name = format!("{}/after:{}", self.name, name);
+        self
+    }
     pub fn with_const_handles(mut self) -> Self {
         self.const_handles = true;
         self.name = format!("{}/const-handles", self.name);
@@ -46,7 +59,7 @@ impl Gadget {
     where
         F: Fn(&mut Composer, &[Witness]) -> Result<Vec<Witness>, Error> + Send + Sync + 'static,
     {
-        Gadget { name: name.to_string(), inputs, f: Arc::new(f), const_handles: false }
+        Gadget { name: name.to_string(), inputs, f: Arc::new(f), const_handles: false, prelude: None }
     }
     /// The circuit: allocate the pinned inputs, run the gadget, record the
     /// adversary-controlled ordinal range and the returned witnesses.
@@ -56,6 +69,7 @@ impl Gadget {
         let inputs = self.inputs.clone();
         let f = self.f.clone();
         let const_handles = self.const_handles;
+        let prelude = self.prelude.clone();
         let p = Prog::new(move |c| {
             let ins: Vec<Witness> = inputs
                 .iter()
@@ -76,6 +90,9 @@ impl Gadget {
             // row might legitimately be left out of a permutation scheme)
             for x in &ins {
                 c.append_gate(Constraint::new().mult(1).a(*x).b(Composer::ZERO));
+            }
+            if let Some(pre) = &prelude {
+                pre(c, &ins)?;
             }
             let lo = c.verif_witness_count();
             let outs = f(c, &ins)?;
